@@ -42,6 +42,7 @@ pub struct Features {
     /// leaf path -> one entry per non-empty written batch
     pub leaves: BTreeMap<String, Vec<LeafBatch>>,
     pub has_varwidth: bool,
+    pub has_list: bool,
 }
 
 fn count_fsl_items(a: &ArrayRef) -> (usize, usize) {
@@ -96,6 +97,14 @@ fn walk(a: &ArrayRef, path: String, mut layers: Vec<Layer>, out: &mut Vec<(Strin
     }
 }
 
+fn has_list(dt: &DataType) -> bool {
+    match dt {
+        DataType::List(_) | DataType::LargeList(_) => true,
+        DataType::Struct(fs) => fs.iter().any(|f| has_list(f.data_type())),
+        _ => false,
+    }
+}
+
 fn has_varwidth(dt: &DataType) -> bool {
     match dt {
         DataType::Utf8 | DataType::LargeUtf8 | DataType::Binary | DataType::LargeBinary | DataType::List(_) | DataType::LargeList(_) => true,
@@ -120,7 +129,7 @@ impl Features {
                 }
             }
         }
-        Features { version: case.version, leaves, has_varwidth: case.schema.fields().iter().any(|f| has_varwidth(f.data_type())) }
+        Features { version: case.version, leaves, has_varwidth: case.schema.fields().iter().any(|f| has_varwidth(f.data_type())), has_list: case.schema.fields().iter().any(|f| has_list(f.data_type())) }
     }
     pub fn describe(&self) -> Value {
         json!(self
@@ -204,7 +213,8 @@ fn dup_first_row(f: &Features, fail: &Failure) -> bool {
         return false;
     }
     let Some(idx) = &fail.indices else { return false };
-    idx.windows(2).any(|w| w[0] == w[1] && (w[0] == 0 || fail.page_starts.contains(&w[0])))
+    // below a list the pages of the item columns count items: any repeated row may sit at the start of one
+    idx.windows(2).any(|w| w[0] == w[1] && (f.has_list || w[0] == 0 || fail.page_starts.contains(&w[0])))
 }
 
 /// the class a failure of this input belongs to, if any
